@@ -226,6 +226,12 @@ def num_misc(ex, st, callee, args, m):
     return NotImplemented
 
 
+@model(r'^core::bool::<impl bool>::then_some::<.*>$')
+def bool_then_some(ex, st, callee, args, m):
+    """bool::then_some(v): Some(v) iff the receiver is true"""
+    return Enum('Option', bv_of_bool(args[0]), {'Some': [args[1]], 'None': []})
+
+
 _UF = {}
 
 
